@@ -2,6 +2,7 @@ package codegen
 
 import (
 	"fmt"
+	"github.com/HobbyOSs/gosk/pkg/cpu"
 	"strconv"
 
 	"github.com/HobbyOSs/gosk/pkg/ocode"
@@ -28,16 +29,19 @@ func handleCALL(params x86genParams, ctx *CodeGenContext) ([]byte, error) {
 		return nil, fmt.Errorf("invalid opcode kind for handleCALL: %v", params.OCode.Kind)
 	}
 
-	// オフセットを計算 (仮に rel32 として計算)
-	offset32 := destAddr - currentAddr - 5
-
-	// オフセットが rel16 の範囲内か確認
-	if offset32 >= -32768 && offset32 <= 32767 {
+	// E8 のディスプレースメントの長さはオペランドサイズで決まる: 16ビットモードでは cw、32ビットモードでは cd。
+	// 16ビットモードで rel16 に収まらない場合は 66h を付けて cd にする。
+	offset16 := destAddr - currentAddr - 3 // rel16 の命令長は 3 バイト
+	if ctx.BitMode == cpu.MODE_16BIT && offset16 >= -32768 && offset16 <= 32767 {
 		// CALL rel16 (オペコード: e8, オフセット: 2 bytes)
-		offset16 := destAddr - currentAddr - 3 // rel16 の命令長は 3 バイト
 		machineCode = []byte{0xe8, byte(offset16), byte(offset16 >> 8)}
+	} else if ctx.BitMode == cpu.MODE_16BIT {
+		// 66 E8 cd (6 バイト)
+		offset32 := destAddr - currentAddr - 6
+		machineCode = []byte{0x66, 0xe8, byte(offset32), byte(offset32 >> 8), byte(offset32 >> 16), byte(offset32 >> 24)}
 	} else {
 		// CALL rel32 (オペコード: e8, オフセット: 4 bytes)
+		offset32 := destAddr - currentAddr - 5
 		machineCode = []byte{0xe8, byte(offset32), byte(offset32 >> 8), byte(offset32 >> 16), byte(offset32 >> 24)}
 	}
 
